@@ -755,6 +755,19 @@ func (sc *Scope) call(e *SExpr) *sv {
 		}
 		arr := mkSelect(ft.memGet(sc.mem, "FILE", fileCompSort()), ref)
 		return &sv{v: &Val{T: types.Typ[types.String], L: []Term{arr, idxInt(0), idxInt(maxLen)}}}
+	case "ghostOf":
+		// ghostOf(x): the abstract bookkeeping state of an object x that is only observed through uninterpreted spec
+		// functions (a second ghost component, independent of the file bytes of the same object)
+		x := sc.eval(e.Args[0]).v
+		if x == nil || len(x.L) == 0 {
+			return sc.fail("ghostOf expects an object value")
+		}
+		ref := x.L[0]
+		if isInterface(x.T) {
+			ref = x.L[1]
+		}
+		arr := mkSelect(ft.memGet(sc.mem, "GHOST", fileCompSort()), ref)
+		return &sv{v: &Val{T: types.Typ[types.String], L: []Term{arr, idxInt(0), idxInt(maxLen)}}}
 	case "statSize":
 		// statSize(f): the size os.File.Stat reports for the file handle f (an uninterpreted, non-negative function of the handle)
 		x := sc.eval(e.Args[0]).v
@@ -886,6 +899,13 @@ func (sc *Scope) call(e *SExpr) *sv {
 				for _, l := range a.L {
 					ts = append(ts, l)
 					sorts = append(sorts, l.S)
+				}
+			}
+			// an opaque function is an uninterpreted function of its argument VALUES: a slice or pointer argument would
+			// pass only the reference, and the function would ignore writes to the memory behind it
+			for i, a := range args {
+				if a != nil && a.T != nil && (isSlice(a.T) || isPointer(a.T)) {
+					return sc.fail("opaque function %s: parameter %d is a slice or pointer (opaque functions take scalars and strings only; memory contents would be ignored)", name, i)
 				}
 			}
 			rs := leavesOf(rt)[0].Sort
